@@ -210,7 +210,7 @@ func rwClassify(kind string, err error, panicked bool) string {
 		switch {
 		case rwHas(msg, "ticket verification failed"):
 			tag = "ticket"
-		case rwHas(msg, "already exists"):
+		case rwHas(msg, "already exists", "is already registered for the promoter"):
 			tag = "exists"
 		default:
 			tag = "validate"
@@ -1682,6 +1682,7 @@ func (s *rwHist) stepOnce() {
 func runReward(seed uint64, n int, out *Out) {
 	out.Op("CFG fixed %d", b2i(rewardFixedVariant()))
 	out.Op("CFG codec %d", b2i(rewardCodecVariant()))
+	out.Op("CFG promoter %d", b2i(rewardPromoterVariant()))
 	steps := int(envInt("VERIF_REWARD_STEPS", 60))
 	script := envStr("VERIF_REWARD_SCRIPT", "")
 	for h := 0; h < n; h++ {
@@ -1787,6 +1788,28 @@ func rewardFixedVariant() bool {
 		return p.Validate(50)
 	}
 	return mk(50) == nil && mk(-50) != nil
+}
+
+// rewardPromoterVariant: does CreatePromoter refuse an address that already belongs to a promoter? (probed on the real
+// message server of a scratch chain: two CreatePromoter messages of one creator with two uids)
+func rewardPromoterVariant() bool {
+	if v := envStr("VERIF_REWARD_PROMOTER", ""); v != "" {
+		return v == "1"
+	}
+	e := NewEnv(1_000_000, 4)
+	srv := rewardkeeper.NewMsgServerImpl(*e.App.RewardKeeper)
+	send := func(n int) error {
+		tk := e.Ticket(0, map[string]interface{}{"uid": UID(clsPromoter, n), "conf": rewardtypes.PromoterConf{CategoryCap: []rewardtypes.CategoryCap{{Category: rewardtypes.RewardCategory_REWARD_CATEGORY_SIGNUP, CapPerAcc: 3}}}})
+		err, _ := e.Tx(func(ctx sdk.Context) error {
+			_, err := srv.CreatePromoter(sdk.WrapSDKContext(ctx), &rewardtypes.MsgCreatePromoter{Creator: e.Accts[1].String(), Ticket: tk})
+			return err
+		})
+		return err
+	}
+	if err := send(1); err != nil {
+		panic(fmt.Sprintf("reward probe: the first promoter is refused: %v", err))
+	}
+	return send(2) != nil
 }
 
 // rewardCodecVariant: is WithdrawCampaignAuthorization registered as an authz.Authorization in this tree?
